@@ -22,8 +22,8 @@ pub struct Query {
 #[derive(Clone, Debug, Serialize, Deserialize)]
 pub struct Case {
     pub codec: CodecId,
-    /// (key codes, amino index into the 21 aminos)
-    pub entries: Vec<(Vec<u8>, u8)>,
+    /// (key codes, amino index into the 21 aminos, how the owned key sequence is produced)
+    pub entries: Vec<(Vec<u8>, u8, Repr)>,
     pub queries: Vec<Query>,
     pub builds: u8,
 }
@@ -35,8 +35,10 @@ fn check<A: Cm>(case: &Case) -> PResult {
     let aminos: Vec<u8> = model::AMINO_CANON.iter().map(|x| sa.m.parse_byte(x.0).unwrap()).collect();
     // model: last insertion for a key wins (HashMap::insert semantics while the caller builds the map)
     let mut fwd: BTreeMap<Vec<u8>, u8> = BTreeMap::new();
-    for (k, a) in &case.entries {
+    let mut key_repr: BTreeMap<Vec<u8>, Repr> = BTreeMap::new();
+    for (k, a, r) in &case.entries {
         fwd.insert(k.clone(), aminos[*a as usize % 21]);
+        key_repr.insert(k.clone(), r.clone());
     }
     let mut inv: BTreeMap<u8, Vec<Vec<u8>>> = BTreeMap::new();
     for (k, a) in &fwd {
@@ -48,12 +50,19 @@ fn check<A: Cm>(case: &Case) -> PResult {
         // a fresh HashMap each round: std's RandomState gives a new iteration order every time
         let mut map: HashMap<Seq<A>, AminoC> = HashMap::new();
         if round % 2 == 0 {
-            for (k, a) in &case.entries {
-                map.insert(sy.seq(k), sa.sym(aminos[*a as usize % 21]));
+            // keys in their generated provenance (copied out of a longer sequence, truncated, edited, ...)
+            for (k, a, r) in &case.entries {
+                let key = build(&sy, &SeqSpec { codes: k.clone(), repr: r.clone() })?.into_seq();
+                map.insert(key, sa.sym(aminos[*a as usize % 21]));
+            }
+        } else if round % 4 == 1 {
+            for (k, a) in fwd.iter().rev() {
+                map.insert(sy.seq(k), sa.sym(*a));
             }
         } else {
             for (k, a) in fwd.iter().rev() {
-                map.insert(sy.seq(k), sa.sym(*a));
+                let key = build(&sy, &SeqSpec { codes: k.clone(), repr: key_repr[k].clone() })?.into_seq();
+                map.insert(key, sa.sym(*a));
             }
         }
         let table: CodonTable<A, AminoC> = no_panic(&format!("from_map_panic/{n}"), "CodonTable::from_map", || CodonTable::from_map(map))?;
@@ -107,7 +116,8 @@ fn check<A: Cm>(case: &Case) -> PResult {
         .class_if(three, "three_preimages")
         .class_if(single, "unique_amino")
         .class_if(fwd.is_empty(), "empty_table")
-        .class_if(offset_query, "offset_query"))
+        .class_if(offset_query, "offset_query")
+        .class_if(case.entries.iter().any(|e| !e.2.is_plain()), "key_with_history"))
 }
 
 pub fn dispatch(case: &Case) -> PResult {
@@ -122,7 +132,7 @@ fn strat(id: CodecId, builds: u8) -> BoxedStrategy<Case> {
     let m = id.model();
     let key = (1..=4usize).prop_flat_map(move |l| vec(gen::code(m), l));
     // few distinct aminos so that 0, 1, 2 and 3+ preimages all occur
-    let entries = (1..=8u8).prop_flat_map(move |span| vec((key.clone(), 0..span), 0..=24));
+    let entries = (1..=8u8).prop_flat_map(move |span| vec((key.clone(), 0..span, gen::owned_repr(m)), 0..=24));
     entries
         .prop_flat_map(move |entries| {
             let keys: Vec<Vec<u8>> = entries.iter().map(|e| e.0.clone()).collect();
@@ -158,7 +168,8 @@ pub fn run(ctx: &mut Ctx) {
         let k = model::pattern_codon(p);
         let aa = model::ncbi_translate(&k);
         let idx = model::AMINO_CANON.iter().position(|x| x.0 == aa).unwrap() as u8;
-        entries.push((k.iter().map(|&b| model::dna_code(b)).collect::<Vec<u8>>(), idx));
+        let pre: Vec<u8> = (0..(p % 7) as usize).map(|i| ((i + p as usize) % 4) as u8).collect();
+        entries.push((k.iter().map(|&b| model::dna_code(b)).collect::<Vec<u8>>(), idx, Repr::OffsetOwned { pre, post: vec![3, 3] }));
     }
     let queries: Vec<Query> = (0..64u8).map(|p| Query { codes: model::pattern_codon(p).iter().map(|&b| model::dna_code(b)).collect(), pre: vec![1; (p % 33) as usize], how: 1 }).collect();
     ctx.each("standard_code_as_custom_table", vec![Case { codec: CodecId::Dna, entries, queries, builds: 20 }], dispatch);
@@ -167,4 +178,5 @@ pub fn run(ctx: &mut Ctx) {
     ctx.require_class("unique_amino");
     ctx.require_class("empty_table");
     ctx.require_class("offset_query");
+    ctx.require_class("key_with_history");
 }
